@@ -241,13 +241,22 @@ def run(case):
                     if q.get("reverse"):
                         kw["reverse"] = True
                 reqs.append({"m": q["m"], "args": args, "kw": kw})
+            if qrng.random() < 0.4:
+                reqs.append({"m": qrng.choice(["featuretypes", "seqids"]), "args": [], "kw": {}})  # these listings are lazy too
+            poke = None
+            if qrng.random() < 0.4:
+                poke = [qrng.choice([{"m": "count_features_of_type", "args": [qrng.choice(["exon", "gene", "mRNA"])]},
+                                     {"m": "seqids"}, {"m": "featuretypes"}])]
             alone = []
             for rq in reqs:
                 r = call(node, dict(rq, op="read", h="h"))
                 alone.append(r["out"] if r["ok"] else None)
             if all(a is not None for a in alone):
                 sched = [qrng.randrange(len(reqs)) for _ in range(qrng.randint(2, 30) if len(feats) < 100 else qrng.randint(150, 400))]
-                r = call(node, {"op": "interleave", "h": "h", "queries": reqs, "schedule": sched})
+                ireq = {"op": "interleave", "h": "h", "queries": reqs, "schedule": sched}
+                if poke:
+                    ireq["poke"] = poke
+                r = call(node, ireq)
                 if not r["ok"]:
                     V.append(viol("C11.interleaved", "%s: interleaved iteration raised %s: %s" % (where, r["exc"], r["msg"]),
                                   kind="interleave_failed", exc=r["exc"]))
